@@ -1,25 +1,596 @@
-/- PLACEHOLDER (to be replaced by the real bit-level model): same names and signatures. -/
+/-
+  Numbers and string quoting, as the Go implementation computes them.
+
+  yae's only number type is float64.  Everything here is computed on the IEEE-754 binary64 bit
+  pattern (`Float.toBits` / `Float.ofBits`) and on exact `Nat`/`Int` arithmetic; nothing relies on
+  libc, on `Float.toString` or on `Float.toInt64`.
+
+  Modelled Go functions (go1.23, amd64):
+    math.Trunc/Floor/Ceil/Round/Abs/Min/Max, `int64(f)` (CVTTSD2SI), `float64(int64)`,
+    strconv.FormatInt(n,10), strconv.FormatFloat(x,'f',-1,64), strconv.ParseFloat(s,64) (decimal,
+    unsigned subset), strconv.ParseInt(s,base,64), strconv.Quote, strconv.Unquote,
+    and the repo's parser/ast.parseNum, val.(*Val).String / Key for numbers.
+
+  Every `Float` function is a thin wrapper `Float.ofBits ∘ fBits ∘ Float.toBits` around a function on
+  `UInt64` bit patterns (`truncBits`, `toInt64Bits`, `renderNumBits`, `parseNumLitBits`, ...).
+  `Float.toBits`/`Float.ofBits` are opaque to the kernel, so proofs should be stated about the
+  `...Bits` functions (see Yae/Proofs/NumLemmas.lean).
+
+  Note: `Float.toBits` canonicalises NaN, so NaN payloads are not observable here (they are not
+  observable in yae either).
+-/
+import Yae.Gen.Print
 namespace Yae.Num
-def isNaN (x : Float) : Bool := x.isNaN
-def isInf (x : Float) : Bool := x.isInf
-def truncF (x : Float) : Float := if x < 0 then x.ceil else x.floor
-def floorF (x : Float) : Float := x.floor
-def ceilF (x : Float) : Float := x.ceil
-def roundF (x : Float) : Float := x.round
-def isInt (x : Float) : Bool := x == truncF x
-def toInt64 (x : Float) : Int := if x.isNaN || x.isInf then -9223372036854775808 else x.toInt64.toInt
+
+/-! ## Bit-level view -/
+
+def signMask : UInt64 := 0x8000000000000000
+def expMask  : UInt64 := 0x7FF0000000000000
+def fracMask : UInt64 := 0x000FFFFFFFFFFFFF
+def magMask  : UInt64 := 0x7FFFFFFFFFFFFFFF
+/-- bits of `math.NaN()` -/
+def nanBits  : UInt64 := 0x7FF8000000000001
+def infBits  : UInt64 := 0x7FF0000000000000
+def oneBits  : UInt64 := 0x3FF0000000000000
+
+/-- biased exponent field, 0..2047 -/
+def expField (b : UInt64) : Nat := ((b >>> 52) &&& 0x7FF).toNat
+def fracField (b : UInt64) : Nat := (b &&& fracMask).toNat
+def signBit (b : UInt64) : Bool := (b &&& signMask) != 0
+
+def bitsIsNaN (b : UInt64) : Bool := expField b == 2047 && fracField b != 0
+def bitsIsInf (b : UInt64) : Bool := expField b == 2047 && fracField b == 0
+
+def isNaN (x : Float) : Bool := bitsIsNaN x.toBits
+def isInf (x : Float) : Bool := bitsIsInf x.toBits
+def isFinite (x : Float) : Bool := expField x.toBits != 2047
+/-- `math.Signbit` -/
+def signbit (x : Float) : Bool := signBit x.toBits
+def isZero (x : Float) : Bool := (x.toBits &&& magMask) == 0
+
+/-- For finite `x`: `|x| = mant * 2^exp` exactly (`mant < 2^53`).  Meaningless for NaN/Inf. -/
+def decompose (b : UInt64) : Nat × Int :=
+  let e := expField b
+  let f := fracField b
+  if e == 0 then (f, -1074) else (f + 2^52, (e : Int) - 1075)
+
+def mantissa (x : Float) : Nat := (decompose x.toBits).1
+def exponent (x : Float) : Int := (decompose x.toBits).2
+
+/-- `m * 2^e` rounded toward zero to a natural number -/
+def shiftNat (m : Nat) (e : Int) : Nat :=
+  match e with
+  | .ofNat k => m <<< k
+  | .negSucc k => m >>> (k + 1)
+
+/-- `⌊|x|⌋` for finite x -/
+def truncMag (x : Float) : Nat := shiftNat (mantissa x) (exponent x)
+
+/-! ## math.Trunc / Floor / Ceil / Round / Abs / Min / Max -/
+
+/-- truncation on the bit pattern; keeps sign, ±0, ±Inf, NaN -/
+def truncBits (b : UInt64) : UInt64 :=
+  let e := expField b
+  if e < 1023 then b &&& signMask
+  else if e ≥ 1075 then b
+  else b &&& ~~~(fracMask >>> (UInt64.ofNat (e - 1023)))
+
+def truncF (x : Float) : Float := Float.ofBits (truncBits x.toBits)
+
+/-- magnitude rounded up to the next integer when it is not one already (finite, non-zero input
+    is the interesting case); sign kept. -/
+def awayBits (b : UInt64) : UInt64 :=
+  let e := expField b
+  let t := truncBits b
+  if e == 2047 then b
+  else if t == b then b
+  else if e < 1023 then (b &&& signMask) ||| oneBits
+  else t + ((1 : UInt64) <<< (UInt64.ofNat (1075 - e)))
+
+def floorBits (b : UInt64) : UInt64 := if signBit b then awayBits b else truncBits b
+def ceilBits (b : UInt64) : UInt64 := if signBit b then truncBits b else awayBits b
+
+def floorF (x : Float) : Float := Float.ofBits (floorBits x.toBits)
+def ceilF (x : Float) : Float := Float.ofBits (ceilBits x.toBits)
+
+/-- `math.Round`, transcribed from the Go source (half away from zero). -/
+def roundBits (b : UInt64) : UInt64 :=
+  let e := expField b
+  if e < 1023 then
+    let s := b &&& signMask
+    if e == 1022 then s ||| oneBits else s
+  else if e < 1075 then
+    let k := UInt64.ofNat (e - 1023)
+    let half : UInt64 := (1 : UInt64) <<< 51
+    (b + (half >>> k)) &&& ~~~(fracMask >>> k)
+  else b
+
+def roundF (x : Float) : Float := Float.ofBits (roundBits x.toBits)
+
+/-- `v == math.Trunc(v)`: integral value; true for ±Inf, false for NaN.
+    (This alone was `NumVal.IsInt` on the pinned tree, see `renderNumPinnedBits`.) -/
+def isIntegralBits (b : UInt64) : Bool := !bitsIsNaN b && truncBits b == b
+def isIntegral (x : Float) : Bool := isIntegralBits x.toBits
+
+/-- bits of 2^63 as a double -/
+def twoPow63Bits : UInt64 := 0x43E0000000000000
+
+/-- `v >= -(1<<63) && v < 1<<63` (false for NaN and ±Inf) -/
+def inInt64RangeBits (b : UInt64) : Bool :=
+  let mag := (b &&& magMask).toNat
+  if signBit b then mag ≤ twoPow63Bits.toNat else mag < twoPow63Bits.toNat
+
+/-- `NumVal.IsInt` (val/val.go, current tree):
+    `v == math.Trunc(v) && v >= -(1<<63) && v < 1<<63`, i.e. losslessly an int64. -/
+def isIntBits (b : UInt64) : Bool := isIntegralBits b && inInt64RangeBits b
+def isInt (x : Float) : Bool := isIntBits x.toBits
+
+def absBits (b : UInt64) : UInt64 := b &&& magMask
+def negBits (b : UInt64) : UInt64 := b ^^^ signMask
+def absF (x : Float) : Float := Float.ofBits (absBits x.toBits)
+def negF (x : Float) : Float := Float.ofBits (negBits x.toBits)
+
+/-- total order key of a non-NaN float: x < y ↔ key x < key y, and -0, +0 share key 0 -/
+def ordKey (b : UInt64) : Int :=
+  let m : Int := (b &&& magMask).toNat
+  if signBit b then -m else m
+
+/-- IEEE `<` on bit patterns -/
+def ltBits (a b : UInt64) : Bool := !bitsIsNaN a && !bitsIsNaN b && ordKey a < ordKey b
+def ltF (x y : Float) : Bool := ltBits x.toBits y.toBits
+/-- IEEE `==` -/
+def eqF (x y : Float) : Bool := !isNaN x && !isNaN y && ordKey x.toBits == ordKey y.toBits
+
+def bitsIsZero (b : UInt64) : Bool := (b &&& magMask) == 0
+
+/-- `math.Min` (dim_amd64.s; same case analysis as the portable Go version) -/
+def minBits (a b : UInt64) : UInt64 :=
+  if (bitsIsInf a && signBit a) || (bitsIsInf b && signBit b) then infBits ||| signMask
+  else if bitsIsNaN a || bitsIsNaN b then nanBits
+  else if bitsIsZero a && bitsIsZero b then (if signBit a then a else b)
+  else if ltBits a b then a else b
+
+/-- `math.Max` -/
+def maxBits (a b : UInt64) : UInt64 :=
+  if (bitsIsInf a && !signBit a) || (bitsIsInf b && !signBit b) then infBits
+  else if bitsIsNaN a || bitsIsNaN b then nanBits
+  else if bitsIsZero a && bitsIsZero b then (if signBit a then b else a)
+  else if ltBits b a then a else b
+
+def minF (x y : Float) : Float := Float.ofBits (minBits x.toBits y.toBits)
+def maxF (x y : Float) : Float := Float.ofBits (maxBits x.toBits y.toBits)
+
+/-! ## float64 → int64 as on amd64 (CVTTSD2SI) -/
+
+def minInt64 : Int := -9223372036854775808
+
+/-- `int64(f)` on the bit pattern: truncation toward zero when the result fits, else the
+    "integer indefinite" value -2^63 (NaN, ±Inf, |trunc f| ≥ 2^63; -2^63 itself is exact anyway). -/
+def toInt64Bits (b : UInt64) : Int :=
+  if expField b == 2047 then minInt64
+  else
+    let m : Int := shiftNat (decompose b).1 (decompose b).2
+    let v := if signBit b then -m else m
+    if minInt64 ≤ v && v < 9223372036854775808 then v else minInt64
+
+def toInt64 (x : Float) : Int := toInt64Bits x.toBits
+
+/-- Go `int(f)`; `int` is 64-bit on amd64 -/
 def toInt (x : Float) : Int := toInt64 x
-def fmtInt (n : Int) : String := toString n
-def fmtFloat (x : Float) : String := toString x
-def parseFloat (_s : String) : Option Float := none
-def parseNumLit (_s : String) : Option Float := none
-def renderNum (x : Float) : String := if isInt x then fmtInt (toInt64 x) else fmtFloat x
-def quote (s : String) : String := "\"" ++ s ++ "\""
-def unquote (_s : String) : Option String := none
-end Yae.Num
-namespace Yae.Num
-def absF (x : Float) : Float := x.abs
-def negF (x : Float) : Float := -x
-def minF (x y : Float) : Float := if x.isNaN || y.isNaN then (0.0/0.0) else if x < y then x else y
-def maxF (x y : Float) : Float := if x.isNaN || y.isNaN then (0.0/0.0) else if x > y then x else y
+
+/-! ## Exact value → nearest binary64 (round half to even) -/
+
+/-- bit length: `bitLen 0 = 0`, `bitLen n = ⌊log2 n⌋ + 1` -/
+def bitLen (n : Nat) : Nat := if n == 0 then 0 else n.log2 + 1
+
+/-- Bits of the binary64 nearest to `(q + ε)·2^e2`, ties to even, where `ε ∈ (0,1)` is present
+    iff `sticky`.  Requires `q > 0` and, when `sticky`, `bitLen q ≥ 55` (so that ε only ever
+    decides ties).  Overflow yields `infBits`. -/
+def packRound (q : Nat) (sticky : Bool) (e2 : Int) : UInt64 :=
+  let nb : Int := bitLen q
+  let drop : Int := max (nb - 53) (-1074 - e2)
+  let mant : Nat :=
+    match drop with
+    | .negSucc k => q <<< (k + 1)
+    | .ofNat 0 => q
+    | .ofNat (d + 1) =>
+      let m := q >>> (d + 1)
+      let rest := q % 2 ^ (d + 1)
+      let half := 2 ^ d
+      if rest > half || (rest == half && (sticky || m % 2 == 1)) then m + 1 else m
+  -- mant < 2^52 only in the subnormal case, where e2 + drop = -1074 and the field below is 0
+  let field : Int := e2 + drop + 1074
+  let bits : Int := field * 2 ^ 52 + mant
+  if bits ≥ 0x7FF0000000000000 then infBits else UInt64.ofNat bits.toNat
+
+/-- nearest binary64 of a natural number (`float64(n)` for n ≥ 0); `infBits` on overflow -/
+def natToBits (n : Nat) : UInt64 := if n == 0 then 0 else packRound n false 0
+
+/-- nearest binary64 of `n / d` (`d > 0`) -/
+def ratToBits (n d : Nat) : UInt64 :=
+  if n == 0 then 0
+  else
+    -- scale so that the quotient has 64..66 bits
+    let s : Int := 65 - (bitLen n : Int) + (bitLen d : Int)
+    let (n', d') : Nat × Nat :=
+      match s with
+      | .ofNat k => (n <<< k, d)
+      | .negSucc k => (n, d <<< (k + 1))
+    packRound (n' / d') (n' % d' != 0) (-s)
+
+/-- `float64(n)` for an int64 `n` -/
+def intToBits (n : Int) : UInt64 :=
+  let b := natToBits n.natAbs
+  if n < 0 then b ||| signMask else b
+
+def intToFloat (n : Int) : Float := Float.ofBits (intToBits n)
+
+/-! ## strconv.FormatInt(n, 10) -/
+
+def digitChar (d : Nat) : Char := Char.ofNat (48 + d)
+
+/-- decimal digits of a natural number, most significant first, no leading zeros ("0" for 0) -/
+def natDigits (n : Nat) : List Char :=
+  if _h : n < 10 then [digitChar n] else natDigits (n / 10) ++ [digitChar (n % 10)]
+termination_by n
+decreasing_by omega
+
+def fmtNat (n : Nat) : String := String.ofList (natDigits n)
+
+def fmtInt (n : Int) : String :=
+  match n with
+  | .ofNat k => fmtNat k
+  | .negSucc k => String.ofList ('-' :: natDigits (k + 1))
+
+/-! ## strconv.FormatFloat(x, 'f', -1, 64) -/
+
+/-- `⌊(c·10^-k)/den⌋`-style helpers: the value `num/den` measured in units of `10^k`. -/
+def scaleK (num den : Nat) (k : Int) : Nat × Nat :=
+  match k with
+  | .ofNat j => (num, den * 10 ^ j)
+  | .negSucc j => (num * 10 ^ (j + 1), den)
+
+/-- Candidates at scale `10^k` inside the rounding interval `[lo, hi]/den` (bounds included iff
+    `incl`): returns the least and greatest admissible integers `D` (meaning `D·10^k`), if any. -/
+def candRange (lo hi den : Nat) (incl : Bool) (k : Int) : Option (Nat × Nat) :=
+  let (l, dl) := scaleK lo den k
+  let (h, dh) := scaleK hi den k
+  -- least D with D·dl ≥ l (or > l)
+  let dmin := if l % dl == 0 then (if incl then l / dl else l / dl + 1) else l / dl + 1
+  -- greatest D with D·dh ≤ h (or < h); as a possibly negative number
+  let dmax : Int := if h % dh == 0 then (if incl then (h / dh : Nat) else (h / dh : Nat) - 1) else (h / dh : Nat)
+  if (dmin : Int) ≤ dmax then some (dmin, dmax.toNat) else none
+
+/-- search upwards for the coarsest scale that still has a candidate -/
+def coarsest (lo hi den : Nat) (incl : Bool) : Nat → Int → Int
+  | 0, k => k
+  | fuel + 1, k =>
+    match candRange lo hi den incl (k + 1) with
+    | some _ => coarsest lo hi den incl fuel (k + 1)
+    | none => k
+
+/-- round-half-even of `num/den` to an integer -/
+def roundHalfEven (num den : Nat) : Nat :=
+  let q := num / den
+  let r := num % den
+  if 2 * r > den || (2 * r == den && q % 2 == 1) then q + 1 else q
+
+/-- Shortest decimal `(D, k)` with `D·10^k` reading back as the finite non-zero double with
+    mantissa `m`, binary exponent `e` (`|x| = m·2^e`), chosen as strconv does (Ryū): the fewest
+    digits such that some candidate lies in the round-trip interval, then the candidate closest to
+    the exact value (half-even), kept inside the interval. -/
+def shortest (m : Nat) (e : Int) : Nat × Int :=
+  -- everything in units of 2^(e-2)
+  let (unit, den) : Nat × Nat :=
+    match e - 2 with
+    | .ofNat j => (2 ^ j, 1)
+    | .negSucc j => (1, 2 ^ (j + 1))
+  let c := 4 * m * unit
+  let hi := (4 * m + 2) * unit
+  let lo := (if m == 2 ^ 52 && e > -1074 then 4 * m - 1 else 4 * m - 2) * unit
+  let incl := m % 2 == 0
+  -- 10^k0 is well below the interval width 3·2^(e-2) (or more), so scale k0 has a candidate
+  let k0 : Int := ((e - 2) * 30103).fdiv 100000 - 1
+  let k := coarsest lo hi den incl 400 k0
+  match candRange lo hi den incl k with
+  | none => (0, 0) -- unreachable
+  | some (dmin, dmax) =>
+    let (cn, cd) := scaleK c den k
+    let d := roundHalfEven cn cd
+    (max dmin (min dmax d), k)
+
+/-- `%f`-style positional rendering of digits `ds` with decimal point position `dp`
+    (value = 0.ds × 10^dp), as strconv's `fmtF` with shortest precision. -/
+def fmtPositional (ds : List Char) (dp : Int) : List Char :=
+  let nd := ds.length
+  let intPart : List Char :=
+    if dp > 0 then
+      let n := dp.toNat
+      ds.take n ++ List.replicate (n - nd) '0'
+    else ['0']
+  let fracPart : List Char :=
+    if (nd : Int) > dp then
+      -- digits at positions dp .. nd-1, positions < 0 are zeros
+      let zeros := if dp < 0 then (-dp).toNat else 0
+      '.' :: (List.replicate zeros '0' ++ ds.drop dp.toNat)
+    else []
+  intPart ++ fracPart
+
+def fmtFloatBits (b : UInt64) : String :=
+  if bitsIsNaN b then "NaN"
+  else if bitsIsInf b then (if signBit b then "-Inf" else "+Inf")
+  else
+    let sign := if signBit b then ['-'] else []
+    let (m, e) := decompose b
+    if m == 0 then String.ofList (sign ++ ['0'])
+    else
+      let (d, k) := shortest m e
+      let ds := natDigits d
+      String.ofList (sign ++ fmtPositional ds ((ds.length : Int) + k))
+
+def fmtFloat (x : Float) : String := fmtFloatBits x.toBits
+
+/-- how yae prints numbers and number map keys (val/string.go, val/map.go) -/
+def renderNumBits (b : UInt64) : String :=
+  if isIntBits b then fmtInt (toInt64Bits b) else fmtFloatBits b
+
+def renderNum (x : Float) : String := renderNumBits x.toBits
+
+/-- the pinned tree's rendering (IsInt without the range check): every integral double beyond the
+    int64 range, and ±Inf, came out as "-9223372036854775808". -/
+def renderNumPinnedBits (b : UInt64) : String :=
+  if isIntegralBits b then fmtInt (toInt64Bits b) else fmtFloatBits b
+
+def renderNumPinned (x : Float) : String := renderNumPinnedBits x.toBits
+
+/-! ## strconv.ParseFloat(s, 64), decimal subset -/
+
+def isDigit (c : Char) : Bool := '0' ≤ c && c ≤ '9'
+def digitVal (c : Char) : Nat := c.toNat - 48
+
+def digitsVal (cs : List Char) : Nat := cs.foldl (fun acc c => acc * 10 + digitVal c) 0
+
+/-- value of a digit string capped at `cap` (enough to know "huge"), avoids giant exponents -/
+def digitsValCapped (cap : Nat) (cs : List Char) : Nat :=
+  cs.foldl (fun acc c => if acc ≥ cap then acc else acc * 10 + digitVal c) 0
+
+/-- Syntax accepted: `D* [. D*] [(e|E) [+-] D+]` with at least one mantissa digit.
+    Returns integer mantissa and decimal exponent: value = mant · 10^exp10
+    (the exponent literal is clamped to ±100000, far outside the finite range either way). -/
+def scanDecimal (cs : List Char) : Option (Nat × Int) :=
+  let ip := cs.takeWhile isDigit
+  let r1 := cs.dropWhile isDigit
+  let (fp, r2) : List Char × List Char :=
+    match r1 with
+    | '.' :: t => (t.takeWhile isDigit, t.dropWhile isDigit)
+    | _ => ([], r1)
+  if ip.isEmpty && fp.isEmpty then none
+  else
+    let mant := digitsVal (ip ++ fp)
+    let fl : Int := fp.length
+    match r2 with
+    | [] => some (mant, -fl)
+    | c :: t =>
+      if c == 'e' || c == 'E' then
+        let (neg, t') : Bool × List Char :=
+          match t with
+          | '+' :: u => (false, u)
+          | '-' :: u => (true, u)
+          | _ => (false, t)
+        if t'.isEmpty || !t'.all isDigit then none
+        else
+          let ev : Int := digitsValCapped 100000 t'
+          some (mant, (if neg then -ev else ev) - fl)
+      else none
+
+/-- nearest double of `mant · 10^e10`; `none` when it rounds to ±Inf (Go: ErrRange).
+    Underflow to zero / subnormals is not an error in Go. -/
+def decimalToBits (mant : Nat) (e10 : Int) : Option UInt64 :=
+  if mant == 0 then some 0
+  else
+    let nd : Int := (natDigits mant).length
+    -- value in [10^(nd-1+e10), 10^(nd+e10))
+    if nd + e10 > 310 then none
+    else if nd + e10 < -330 then some 0
+    else
+      let b :=
+        match e10 with
+        | .ofNat k => natToBits (mant * 10 ^ k)
+        | .negSucc k => ratToBits mant (10 ^ (k + 1))
+      if b == infBits then none else some b
+
+/-- `strconv.ParseFloat(s, 64)` on `[+-]? D* [. D*] [(e|E) [+-]? D+]` (at least one mantissa digit).
+    Not modelled (answered `none`, whereas Go accepts them): `inf`/`infinity`/`nan` words,
+    hexadecimal floats (`0x1p-2`) and `_` separators; none of them is a yae lexeme. -/
+def parseFloatBits (s : String) : Option UInt64 :=
+  let (neg, body) : Bool × List Char :=
+    match s.toList with
+    | '+' :: t => (false, t)
+    | '-' :: t => (true, t)
+    | cs => (false, cs)
+  match scanDecimal body with
+  | none => none
+  | some (m, e) => (decimalToBits m e).map fun b => if neg then b ||| signMask else b
+
+def parseFloat (s : String) : Option Float := (parseFloatBits s).map Float.ofBits
+
+/-! ## strconv.ParseInt(s, base, 64) for unsigned digit strings, and ast.parseNum -/
+
+def baseDigit (c : Char) : Option Nat :=
+  if '0' ≤ c && c ≤ '9' then some (c.toNat - 48)
+  else if 'a' ≤ c && c ≤ 'z' then some (c.toNat - 87)
+  else if 'A' ≤ c && c ≤ 'Z' then some (c.toNat - 55)
+  else none
+
+/-- magnitude part of ParseInt: digits only (no underscore, non-empty), each digit < base -/
+def parseUintBase (base : Nat) (cs : List Char) : Option Nat :=
+  if cs.isEmpty then none
+  else
+    cs.foldl (fun (acc : Option Nat) c =>
+      match acc, baseDigit c with
+      | some a, some d => if d < base then some (a * base + d) else none
+      | _, _ => none) (some 0)
+
+/-- `strconv.ParseInt(s, base, 64)` for base 2/8/16 (optional sign, then digits; range error →
+    `none`). -/
+def parseIntBase (base : Nat) (cs : List Char) : Option Int :=
+  let (neg, ds) : Bool × List Char :=
+    match cs with
+    | '+' :: t => (false, t)
+    | '-' :: t => (true, t)
+    | _ => (false, cs)
+  match parseUintBase base ds with
+  | none => none
+  | some v =>
+    if neg then (if v ≤ 2 ^ 63 then some (-(v : Int)) else none)
+    else (if v < 2 ^ 63 then some (v : Int) else none)
+
+/-- parser/ast/literal.go `parseNum` -/
+def parseNumLitBits (s : String) : Option UInt64 :=
+  match parseFloatBits s with
+  | some f => some f
+  | none =>
+    match s.toList with
+    | '0' :: 'x' :: rest => (parseIntBase 16 rest).map intToBits
+    | '0' :: 'b' :: rest => (parseIntBase 2 rest).map intToBits
+    | '0' :: 'o' :: rest => (parseIntBase 8 rest).map intToBits
+    | _ => none
+
+def parseNumLit (s : String) : Option Float := (parseNumLitBits s).map Float.ofBits
+
+/-! ## strconv.Quote -/
+
+def inRanges (n : Nat) : List (Nat × Nat) → Bool
+  | [] => false
+  | (lo, hi) :: rest => if n < lo then false else if n ≤ hi then true else inRanges n rest
+
+/-- `unicode.IsPrint` (table generated from the Go toolchain) -/
+def isPrint (c : Char) : Bool := inRanges c.toNat Yae.Gen.printRanges
+
+def hexLower (n : Nat) : Char := if n < 10 then Char.ofNat (48 + n) else Char.ofNat (87 + n)
+
+/-- `width` lowercase hex digits of `n`, most significant first -/
+def hexFixed : Nat → Nat → List Char
+  | 0, _ => []
+  | w + 1, n => hexFixed w (n / 16) ++ [hexLower (n % 16)]
+
+/-- strconv's `appendEscapedRune` with quote `"`, not ASCII-only, not graphic-only -/
+def quoteChar (c : Char) : List Char :=
+  if c == '"' || c == '\\' then ['\\', c]
+  else if isPrint c then [c]
+  else
+    let n := c.toNat
+    if n == 7 then ['\\', 'a']
+    else if n == 8 then ['\\', 'b']
+    else if n == 12 then ['\\', 'f']
+    else if n == 10 then ['\\', 'n']
+    else if n == 13 then ['\\', 'r']
+    else if n == 9 then ['\\', 't']
+    else if n == 11 then ['\\', 'v']
+    else if n < 32 || n == 127 then '\\' :: 'x' :: hexFixed 2 n
+    else if n < 0x10000 then '\\' :: 'u' :: hexFixed 4 n
+    else '\\' :: 'U' :: hexFixed 8 n
+
+def quote (s : String) : String :=
+  String.ofList ('"' :: (s.toList.flatMap quoteChar ++ ['"']))
+
+/-! ## strconv.Unquote -/
+
+def hexDigitVal (c : Char) : Option Nat :=
+  if '0' ≤ c && c ≤ '9' then some (c.toNat - 48)
+  else if 'a' ≤ c && c ≤ 'f' then some (c.toNat - 87)
+  else if 'A' ≤ c && c ≤ 'F' then some (c.toNat - 55)
+  else none
+
+/-- exactly `n` hex digits -/
+def takeHex : Nat → Nat → List Char → Option (Nat × List Char)
+  | 0, acc, cs => some (acc, cs)
+  | _ + 1, _, [] => none
+  | n + 1, acc, c :: cs =>
+    match hexDigitVal c with
+    | some v => takeHex n (acc * 16 + v) cs
+    | none => none
+
+def validRune (n : Nat) : Bool := n < 0xD800 || (0xE000 ≤ n && n ≤ 0x10FFFF)
+
+def isOctal (c : Char) : Bool := '0' ≤ c && c ≤ '7'
+
+/-- `strconv.UnquoteChar` after the leading backslash.  `\x` / octal escapes denote raw bytes in
+    Go; a Lean `String` can only hold the ASCII ones, the others are reported as `none` (they are
+    outside the lexer's language, see `unquote`). -/
+def unescape (quoteCh : Char) : List Char → Option (Char × List Char)
+  | [] => none
+  | c :: rest =>
+    if c == 'a' then some (Char.ofNat 7, rest)
+    else if c == 'b' then some (Char.ofNat 8, rest)
+    else if c == 'f' then some (Char.ofNat 12, rest)
+    else if c == 'n' then some ('\n', rest)
+    else if c == 'r' then some ('\r', rest)
+    else if c == 't' then some ('\t', rest)
+    else if c == 'v' then some (Char.ofNat 11, rest)
+    else if c == '\\' then some ('\\', rest)
+    else if c == '\'' || c == '"' then (if c == quoteCh then some (c, rest) else none)
+    else if c == 'x' then
+      match takeHex 2 0 rest with
+      | some (v, r) => if v < 128 then some (Char.ofNat v, r) else none
+      | none => none
+    else if c == 'u' then
+      match takeHex 4 0 rest with
+      | some (v, r) => if validRune v then some (Char.ofNat v, r) else none
+      | none => none
+    else if c == 'U' then
+      match takeHex 8 0 rest with
+      | some (v, r) => if validRune v then some (Char.ofNat v, r) else none
+      | none => none
+    else if isOctal c then
+      match rest with
+      | d1 :: d2 :: r =>
+        if isOctal d1 && isOctal d2 then
+          let v := (c.toNat - 48) * 64 + (d1.toNat - 48) * 8 + (d2.toNat - 48)
+          if v < 128 then some (Char.ofNat v, r) else none
+        else none
+      | _ => none
+    else none
+
+/-- body of an interpreted literal up to the closing quote; returns decoded text and the input
+    after the closing quote.  `single` = stop after one character (rune literals). -/
+def unquoteBody (quoteCh : Char) (single : Bool) : Nat → List Char → List Char → Option (List Char × List Char)
+  | 0, _, _ => none
+  | _ + 1, _, [] => none
+  | fuel + 1, acc, c :: rest =>
+    if c == quoteCh then some (acc.reverse, rest)
+    else if c == '\n' then none
+    else
+      let step : Option (Char × List Char) :=
+        if c == '\\' then unescape quoteCh rest else some (c, rest)
+      match step with
+      | none => none
+      | some (ch, rest') =>
+        if single then
+          match rest' with
+          | q :: r => if q == quoteCh then some ((ch :: acc).reverse, r) else none
+          | [] => none
+        else unquoteBody quoteCh single fuel (ch :: acc) rest'
+
+/-- `strconv.Unquote`.  Faithful for every input the lexer's two string rules admit
+    (`"(?:[^"\\]*|\\["\\trnbf\/]|\\u[0-9a-fA-F]{4})*"` and `` `[^`]*` ``) and more generally for all
+    valid-UTF-8 inputs whose `\x`/octal escapes stay below 0x80.  Things Go rejects although the
+    lexer admits them: `\/`, a raw newline inside double quotes, `\u` surrogates. -/
+def unquote (s : String) : Option String :=
+  match s.toList with
+  | [] => none
+  | [_] => none
+  | q :: rest =>
+    if q == '`' then
+      -- first closing back quote must be the last character
+      let body := rest.takeWhile (· != '`')
+      match rest.dropWhile (· != '`') with
+      | ['`'] => some (String.ofList (body.filter (· != '\r')))
+      | _ => none
+    else if q == '"' || q == '\'' then
+      match unquoteBody q (q == '\'') (rest.length + 1) [] rest with
+      | some (out, []) => some (String.ofList out)
+      | _ => none
+    else none
+
 end Yae.Num
